@@ -102,9 +102,11 @@ inline void clock_read_hook()
   tl_in_clock_hook = false;
 }
 
+inline thread_local uint64_t tl_first_block_clk = 0; // clock when the current log call first found its queue full (0: it never did)
 inline void hook(int p, void const* a, uint64_t b)
 {
   g_hook_counts[p & 63].fetch_add(1, std::memory_order_relaxed);
+  if (p == qv::FE_BLOCKED_RETRY && !tl_first_block_clk) tl_first_block_clk = vf::wall_now_ns();
   if (p == qv::BW_IDLE_ALL_EMPTY) g_idle_cycles.fetch_add(1, std::memory_order_relaxed);
   if (g_mode_s)
   {
@@ -226,6 +228,7 @@ struct Issue
   uint64_t g_call{0}, g_ret{0};
   uint64_t ts_lo{0};   // wall clock read before the call (lower bound of the statement's timestamp)
   uint64_t clk_ret{0}; // wall clock read after the call returned (upper bound of its enqueue instant)
+  uint64_t clk_first_block{0}; // wall clock when the call first found its queue full (0: never); the timestamp was read before that
   uint32_t stalled_us{0};
   bool dynamic{false};
   uint8_t kind{0}; // 0 log, others family specific
@@ -307,11 +310,13 @@ inline Issue issue_std(std::vector<Issue>& log, Lg* lg, uint16_t logger_idx, qui
   is.len = len;
   std::string const pl = payload(tid, seq, len);
   is.stalled_us = tl_stall_us;
+  tl_first_block_clk = 0;
   is.ts_lo = wall_now_ns();
   is.g_call = ticket();
   is.res = static_cast<int8_t>(log_std(lg, lvl, tid, seq, pl));
   is.g_ret = ticket();
   is.clk_ret = wall_now_ns();
+  is.clk_first_block = tl_first_block_clk;
   log.push_back(is);
   return is;
 }
